@@ -56,6 +56,12 @@ impl Drop for Arena {
 	}
 }
 
+/// Library log lines that discriminate listed findings (the logs themselves are trimmed regularly).
+pub const LOG_MARKERS: &[(&str, &[&str])] = &[
+	// `feerate_bump` refused to build a claim because the bumped fee would leave less than the dust limit
+	("bump-refused-below-dust", &["Can't bump new claiming tx", "below dust threshold"]),
+];
+
 pub struct World {
 	pub nodes: Vec<SNode>,
 	pub persisters: Vec<&'static RecPersister>,
@@ -65,6 +71,8 @@ pub struct World {
 	/// restart counter per node (for labelling)
 	pub restarts: Vec<u32>,
 	pub deferred: bool,
+	/// log markers seen per node, kept across `trim` (node, tag); see `LOG_MARKERS`
+	pub log_notes: std::sync::Mutex<std::collections::BTreeSet<(usize, &'static str)>>,
 }
 
 pub struct WorldCfg {
@@ -120,7 +128,7 @@ impl World {
 			let st = cfg.node_styles.get(i).cloned().unwrap_or(cfg.connect_style);
 			nd.connect_style = std::rc::Rc::new(std::cell::RefCell::new(st));
 		}
-		World { nodes, persisters, configs: cfg.configs, n, arena, restarts: vec![0; n], deferred: cfg.deferred_monitor }
+		World { nodes, persisters, configs: cfg.configs, n, arena, restarts: vec![0; n], deferred: cfg.deferred_monitor, log_notes: std::sync::Mutex::new(Default::default()) }
 	}
 
 	pub fn node_id(&self, i: usize) -> PublicKey {
@@ -286,8 +294,27 @@ impl World {
 		Ok(())
 	}
 
+	fn scan_logs(&self) {
+		let mut notes = self.log_notes.lock().unwrap();
+		for (i, nd) in self.nodes.iter().enumerate() {
+			let lines = nd.logger.lines.lock().unwrap();
+			for (tag, needles) in LOG_MARKERS.iter() {
+				if !notes.contains(&(i, *tag)) && lines.keys().any(|(_, l)| needles.iter().all(|n| l.contains(n))) {
+					notes.insert((i, *tag));
+				}
+			}
+		}
+	}
+
+	/// Has node `node` logged a line matching marker `tag` (see `LOG_MARKERS`) at any time in this world?
+	pub fn noted(&self, node: usize, tag: &'static str) -> bool {
+		self.scan_logs();
+		self.log_notes.lock().unwrap().contains(&(node, tag))
+	}
+
 	/// Drop all pending bookkeeping of the test doubles that would otherwise grow without bound.
 	pub fn trim(&self) {
+		self.scan_logs();
 		for nd in self.nodes.iter() {
 			nd.chain_monitor.added_monitors.lock().unwrap().clear();
 			nd.chain_monitor.monitor_updates.lock().unwrap().clear();
